@@ -130,6 +130,9 @@ type c12Config struct {
 	Regs      []c12Reg          `json:"regs"`
 	Formatter string            `json:"formatter"`
 	Aliases   map[string]string `json:"aliases"`
+	// AliasFirst: the aliases are declared before the handlers are registered (resolution happens per request, so the
+	// order of the two setup steps must not matter)
+	AliasFirst bool `json:"alias_first,omitempty"`
 }
 
 type c12Case struct {
@@ -180,21 +183,32 @@ type c12Server struct {
 func c12Build(cfg c12Config) *c12Server {
 	s := &c12Server{log: &c12Log{}}
 	s.rpc = jsonrpc.NewServer(jsonrpc.WithServerMethodNameFormatter(c12Formatter(cfg.Formatter)))
-	for _, r := range cfg.Regs {
-		reg := r.NS + ":" + r.Type
-		if r.Type == "X" {
-			s.rpc.Register(r.NS, &c12X{reg: reg, log: s.log})
-		} else {
-			s.rpc.Register(r.NS, &c12Y{reg: reg, log: s.log})
+	register := func() {
+		for _, r := range cfg.Regs {
+			reg := r.NS + ":" + r.Type
+			if r.Type == "X" {
+				s.rpc.Register(r.NS, &c12X{reg: reg, log: s.log})
+			} else {
+				s.rpc.Register(r.NS, &c12Y{reg: reg, log: s.log})
+			}
 		}
 	}
-	keys := make([]string, 0, len(cfg.Aliases))
-	for k := range cfg.Aliases {
-		keys = append(keys, k)
+	alias := func() {
+		keys := make([]string, 0, len(cfg.Aliases))
+		for k := range cfg.Aliases {
+			keys = append(keys, k)
+		}
+		sort.Strings(keys)
+		for _, k := range keys {
+			s.rpc.AliasMethod(k, cfg.Aliases[k])
+		}
 	}
-	sort.Strings(keys)
-	for _, k := range keys {
-		s.rpc.AliasMethod(k, cfg.Aliases[k])
+	if cfg.AliasFirst {
+		alias()
+		register()
+	} else {
+		register()
+		alias()
 	}
 	return s
 }
@@ -614,13 +628,16 @@ func c12AliasTables(cfg c12Config) []map[string]string {
 	return tables
 }
 
-const c12Rule = "exhaustive over {A,B,''} namespaces x {none,X,Y,X+Y,Y+X} registrations per namespace x 6 formatters x 5 alias tables x every candidate method string of the universe; arities 0..k+1 and one wrongly typed JSON value per parameter position for every method; client/server agreement (same formatter, rpc_method tag); 8 goroutines building servers and clients at the same time through one shared built-in formatter instance, each under its own namespace. Non-trivial = >=2 registrations, or an alias involved, or a non-default formatter; distinct by descriptor hash"
+const c12Rule = "exhaustive over {A,B,''} namespaces x {none,X,Y,X+Y,Y+X} registrations per namespace x 6 formatters x 5 alias tables (declared after or before the registrations) x every candidate method string of the universe; arities 0..k+1 and one wrongly typed JSON value per parameter position for every method; client/server agreement (same formatter, rpc_method tag); 8 goroutines building servers and clients at the same time through one shared built-in formatter instance, each under its own namespace. Non-trivial = >=2 registrations, or an alias involved, or a non-default formatter; distinct by descriptor hash"
 
 func c12NT(c c12Case) (bool, []string) {
 	cl := []string{"kind_" + c.Kind, "fmt_" + c.Config.Formatter}
 	nt := len(c.Config.Regs) >= 2 || len(c.Config.Aliases) > 0 || c.Config.Formatter != "default"
 	if _, ok := c.Config.Aliases[c.Method]; ok {
 		cl = append(cl, "method_is_alias")
+		if c.Config.AliasFirst {
+			cl = append(cl, "alias_declared_before_registration")
+		}
 		if _, direct := c12Table(c.Config)[c.Method]; direct {
 			cl = append(cl, "alias_shadows_direct")
 		}
@@ -642,7 +659,7 @@ func c12NT(c c12Case) (bool, []string) {
 func TestC12(t *testing.T) {
 	rec := NewRec("C12", c12Rule)
 	defer rec.Finish(t)
-	rec.RequireClass("concurrent_setup", "method_is_alias", "alias_shadows_direct", "resolves_none", "resolves_one", "kind_arity", "kind_type", "kind_client", "kind_tag")
+	rec.RequireClass("alias_declared_before_registration", "concurrent_setup", "method_is_alias", "alias_shadows_direct", "resolves_none", "resolves_one", "kind_arity", "kind_type", "kind_client", "kind_tag")
 	names := c12AllNames()
 	regsets := c12AllRegSets()
 	sh, nsh := shard()
@@ -655,8 +672,8 @@ func TestC12(t *testing.T) {
 			}
 			for _, f := range c12Formatters {
 				base := c12Config{Regs: regs, Formatter: f.Name}
-				for _, al := range c12AliasTables(base) {
-					cfg := c12Config{Regs: regs, Formatter: f.Name, Aliases: al}
+				for ai, al := range c12AliasTables(base) {
+					cfg := c12Config{Regs: regs, Formatter: f.Name, Aliases: al, AliasFirst: len(al) > 0 && (ri+ai)%2 == 1}
 					for _, m := range names {
 						c := c12Case{Config: cfg, Kind: "dispatch", Method: m}
 						nt, cl := c12NT(c)
@@ -741,7 +758,7 @@ func TestC12(t *testing.T) {
 		for i := 0; i < nreg; i++ {
 			regs = append(regs, c12Reg{NS: rapid.SampledFrom([]string{"A", "B", "", "a", "A.B"}).Draw(rt, "ns"), Type: rapid.SampledFrom([]string{"X", "Y"}).Draw(rt, "type")})
 		}
-		cfg := c12Config{Regs: regs, Formatter: rapid.SampledFrom(c12Formatters).Draw(rt, "fmt").Name, Aliases: map[string]string{}}
+		cfg := c12Config{Regs: regs, Formatter: rapid.SampledFrom(c12Formatters).Draw(rt, "fmt").Name, Aliases: map[string]string{}, AliasFirst: rapid.Bool().Draw(rt, "aliasfirst")}
 		f := c12Formatter(cfg.Formatter)
 		var pool []string
 		for _, r := range regs {
